@@ -1,5 +1,7 @@
 /* hx conc: C19.  Groups of 2..8 cases that share one htp_cfg_t are run
  *   (a) alone, each with its own configuration (reference dump),
+ *   (c) fiber mode: like baton mode, but all connections of the group take turns on ONE thread (ucontext coroutines) - what an
+ *       application that serves many connections per worker thread does; state parked in thread-local storage is shared there
  *   (b) together on one shared configuration, one thread per connection, either
  *       - baton mode: exactly one thread runs at a time and the baton is passed at API-call boundaries following a seeded
  *         schedule, i.e. a call-level interleaving of the connections (deterministic, replayable), or
@@ -14,6 +16,7 @@
 #include <stdio.h>
 #include <stdlib.h>
 #include <string.h>
+#include <ucontext.h>
 #include "hx.h"
 #include "htp_config_private.h"
 #include "htp_hooks.h"
@@ -25,7 +28,7 @@ extern void (*hx_after_hook)(void);
 htp_cfg_t *hx_build_cfg_for(const hx_case *c);
 
 #define MAXG 8
-enum { MODE_BATON = 0, MODE_FREE = 1 };
+enum { MODE_BATON = 0, MODE_FREE = 1, MODE_FIBER = 2 };
 
 typedef struct { hx_case c; hx_result r; int idx; } worker;
 
@@ -41,6 +44,24 @@ static htp_cfg_t *shared_tx;     /* application-owned per-transaction configurat
 static int in_flight;                       /* data calls currently executing (free mode; atomics) */
 static uint64_t overlapped_calls, max_in_flight;
 
+/* ---- fiber mode: per-fiber copies of the harness's per-thread state ---- */
+void *hx_cur_get(void);
+void hx_cur_set(void *);
+extern __thread int hxa_bad_close, hxa_fds_open;
+typedef struct { void *cur; int64_t live_blocks, live_bytes; uint64_t alloc_count, vclock; int fds_open, bad_close, counting; } fstate;
+static ucontext_t sched_ctx, fctx[MAXG];
+static fstate fst[MAXG];
+static int fnext = -1;
+#define FSTACK (1 << 20)
+static void fstate_save(fstate *f) {
+    f->cur = hx_cur_get(); f->live_blocks = hxa_live_blocks; f->live_bytes = hxa_live_bytes; f->alloc_count = hxa_alloc_count;
+    f->vclock = hxa_vclock; f->fds_open = hxa_fds_open; f->bad_close = hxa_bad_close; f->counting = hxa_counting;
+}
+static void fstate_load(const fstate *f) {
+    hx_cur_set(f->cur); hxa_live_blocks = f->live_blocks; hxa_live_bytes = f->live_bytes; hxa_alloc_count = f->alloc_count;
+    hxa_vclock = f->vclock; hxa_fds_open = f->fds_open; hxa_bad_close = f->bad_close; hxa_counting = f->counting;
+}
+
 static int pick_next(int self_ok, int self) {
     int cand[MAXG], n = 0;
     for (int i = 0; i < ngroup; i++) if (alive[i] && (self_ok || i != self)) cand[n++] = i;
@@ -50,6 +71,21 @@ static int pick_next(int self_ok, int self) {
 
 static void conc_yield(void) {
     if (my_idx < 0) return;
+    if (mode == MODE_FIBER) {
+        yields++;
+        int nxt = (hx_splitmix(&sched_rng) & 1) ? my_idx : pick_next(1, my_idx);
+        sched_hash = hx_hash(&nxt, sizeof nxt, sched_hash);
+        if (nxt != my_idx) {
+            int me = my_idx;
+            switches++;
+            fstate_save(&fst[me]);
+            fnext = nxt;
+            swapcontext(&fctx[me], &sched_ctx);
+            my_idx = me;            /* resumed */
+            fstate_load(&fst[me]);
+        }
+        return;
+    }
     if (mode == MODE_BATON) {
         pthread_mutex_lock(&mu);
         yields++;
@@ -108,6 +144,50 @@ static void *worker_main(void *arg) {
     return NULL;
 }
 
+static worker *fW;
+static void fiber_main(int i) {
+    my_idx = i;
+    hx_run(&fW[i].c, &fW[i].r);
+    fstate_save(&fst[i]);
+    alive[i] = 0;
+    fnext = -1;
+    /* returning resumes sched_ctx (uc_link) */
+}
+
+/* run the g workers as coroutines on the calling thread, switching at the yield points per the seeded schedule */
+static int fiber_round(worker *W, int g) {
+    static char *stacks[MAXG];
+    fW = W;
+    fstate outer;
+    fstate_save(&outer);
+    for (int i = 0; i < g; i++) {
+        if (stacks[i] == NULL && (stacks[i] = malloc(FSTACK)) == NULL) return -1;
+        getcontext(&fctx[i]);
+        fctx[i].uc_stack.ss_sp = stacks[i];
+        fctx[i].uc_stack.ss_size = FSTACK;
+        fctx[i].uc_link = &sched_ctx;
+        makecontext(&fctx[i], (void (*)(void)) fiber_main, 1, i);
+        fst[i] = outer; fst[i].cur = NULL;
+    }
+    hx_shared_cfg = shared;
+    hx_shared_txcfg = shared_tx;
+    fnext = pick_next(1, -1);
+    while (fnext >= 0) {
+        int i = fnext;
+        fnext = -1;
+        my_idx = i;
+        fstate_load(&fst[i]);
+        swapcontext(&sched_ctx, &fctx[i]);
+        if (fnext < 0) fnext = pick_next(1, -1);     /* the fiber finished: any live one */
+    }
+    my_idx = -1;
+    hx_shared_cfg = NULL;
+    hx_shared_txcfg = NULL;
+    /* the thread's own accounting: what the fibers allocated they also released, or left to be reported in their dumps */
+    fstate_load(&outer);
+    return 0;
+}
+
 /* ---- deep hash of a configuration ---- */
 static uint64_t hash_hook(const htp_hook_t *h, uint64_t acc) {
     if (h == NULL) return hx_hash("N", 1, acc);
@@ -149,7 +229,7 @@ int hx_mode_conc(int argc, char **argv) {
     mode = MODE_BATON;
     for (int i = 0; i < argc; i++) {
         if (!strcmp(argv[i], "--seed") && i + 1 < argc) seed = strtoull(argv[++i], NULL, 10);
-        else if (!strcmp(argv[i], "--mode") && i + 1 < argc) mode = !strcmp(argv[++i], "free") ? MODE_FREE : MODE_BATON;
+        else if (!strcmp(argv[i], "--mode") && i + 1 < argc) { i++; mode = !strcmp(argv[i], "free") ? MODE_FREE : (!strcmp(argv[i], "fiber") ? MODE_FIBER : MODE_BATON); }
         else if (!strcmp(argv[i], "--rounds") && i + 1 < argc) rounds = atoi(argv[++i]);
         else if (!strcmp(argv[i], "--round-seed") && i + 1 < argc) forced_round_seed = strtoull(argv[++i], NULL, 10);
         else if (!strcmp(argv[i], "--exit-code")) exit_code = 1;
@@ -198,10 +278,14 @@ int hx_mode_conc(int argc, char **argv) {
             uint64_t round_seed = sched_rng;
             sched_hash = 7;
             for (int i = 0; i < g; i++) { alive[i] = 1; hx_result_init(&W[i].r); }
-            turn = mode == MODE_BATON ? pick_next(1, -1) : -1;
-            pthread_t th[MAXG];
-            for (int i = 0; i < g; i++) if (pthread_create(&th[i], NULL, worker_main, &W[i]) != 0) { fprintf(stderr, "pthread_create failed\n"); return 2; }
-            for (int i = 0; i < g; i++) pthread_join(th[i], NULL);
+            if (mode == MODE_FIBER) {
+                if (fiber_round(W, g) != 0) { fprintf(stderr, "fiber setup failed\n"); return 2; }
+            } else {
+                turn = mode == MODE_BATON ? pick_next(1, -1) : -1;
+                pthread_t th[MAXG];
+                for (int i = 0; i < g; i++) if (pthread_create(&th[i], NULL, worker_main, &W[i]) != 0) { fprintf(stderr, "pthread_create failed\n"); return 2; }
+                for (int i = 0; i < g; i++) pthread_join(th[i], NULL);
+            }
             if (nsched == capsched) { capsched = capsched ? capsched * 2 : 256; scheds = realloc(scheds, capsched * sizeof *scheds); }
             scheds[nsched++] = sched_hash;
             uint64_t h1 = hx_cfg_hash(shared) ^ (shared_tx ? hx_cfg_hash(shared_tx) * 31 : 0);
@@ -210,7 +294,7 @@ int hx_mode_conc(int argc, char **argv) {
                 cfg_written++;
                 if (cfg_written <= (uint64_t) maxm) {
                     printf("W {\"first\":%u,\"n\":%d,\"mode\":\"%s\",\"round_seed\":%llu,\"detail\":\"deep hash of the shared configuration changed while %d connections were parsed\"}\n",
-                           W[0].c.id, g, mode == MODE_BATON ? "baton" : "free", (unsigned long long) round_seed, g);
+                           W[0].c.id, g, mode == MODE_BATON ? "baton" : (mode == MODE_FIBER ? "fiber" : "free"), (unsigned long long) round_seed, g);
                 }
                 h0 = h1;
             }
@@ -221,7 +305,7 @@ int hx_mode_conc(int argc, char **argv) {
                 if (!same) {
                     mism++;
                     if (mism <= (uint64_t) maxm) {
-                        printf("M {\"id\":%u,\"first\":%u,\"n\":%d,\"mode\":\"%s\",\"round_seed\":%llu,\"base\":", W[i].c.id, W[0].c.id, g, mode == MODE_BATON ? "baton" : "free", (unsigned long long) round_seed);
+                        printf("M {\"id\":%u,\"first\":%u,\"n\":%d,\"mode\":\"%s\",\"round_seed\":%llu,\"base\":", W[i].c.id, W[0].c.id, g, mode == MODE_BATON ? "baton" : (mode == MODE_FIBER ? "fiber" : "free"), (unsigned long long) round_seed);
                         fwrite(solo[i].dump.p, 1, solo[i].dump.n, stdout);
                         fputs(",\"got\":", stdout);
                         fwrite(W[i].r.dump.p, 1, W[i].r.dump.n, stdout);
@@ -241,7 +325,7 @@ int hx_mode_conc(int argc, char **argv) {
     if (nsched) { qsort(scheds, nsched, sizeof *scheds, cmp_u64); distinct = 1; for (uint64_t i = 1; i < nsched; i++) if (scheds[i] != scheds[i - 1]) distinct++; }
     free(scheds);
     printf("S {\"mode\":\"%s\",\"groups\":%llu,\"runs\":%llu,\"rounds\":%llu,\"distinct_schedules\":%llu,\"yield_points\":%llu,\"switches\":%llu,\"cfg_hash_checks\":%llu,\"cfg_written\":%llu,\"mismatches\":%llu,\"api_calls\":%llu,\"tx_created\":%llu,\"overlapped_calls\":%llu,\"max_in_flight\":%llu,\"by_size\":[",
-           mode == MODE_BATON ? "baton" : "free", (unsigned long long) groups, (unsigned long long) runs, (unsigned long long) nsched, (unsigned long long) distinct, (unsigned long long) yields,
+           mode == MODE_BATON ? "baton" : (mode == MODE_FIBER ? "fiber" : "free"), (unsigned long long) groups, (unsigned long long) runs, (unsigned long long) nsched, (unsigned long long) distinct, (unsigned long long) yields,
            (unsigned long long) switches, (unsigned long long) cfg_checks, (unsigned long long) cfg_written, (unsigned long long) mism, (unsigned long long) agg.api_calls, (unsigned long long) agg.tx_created, (unsigned long long) overlapped_calls, (unsigned long long) max_in_flight);
     for (int i = 0; i <= MAXG; i++) printf("%s%llu", i ? "," : "", (unsigned long long) by_size[i]);
     printf("]}\n");
